@@ -26,42 +26,86 @@ struct L1Outcome {
     returned: Vec<Vec<u32>>,
 }
 
-fn run_l1(threads: usize, calls: usize, used: &RoaringBitmap, prefix: &[usize]) -> Result<L1Outcome, String> {
-    let ids = Arc::new(arroy::verif::ConcurrentNodeIds::new(used.clone()));
-    let sched = Sched::new(threads);
-    let returned: Arc<Mutex<Vec<Vec<u32>>>> = Arc::new(Mutex::new(vec![Vec::new(); threads]));
-    // per thread: (label, value returned) of the atomic operations of the call in progress —
-    // everything the locals of next() can depend on
-    let observed: Arc<Mutex<Vec<Vec<(&'static str, u64)>>>> = Arc::new(Mutex::new(vec![Vec::new(); threads]));
-    let mut handles = Vec::new();
-    for t in 0..threads {
-        let ids = ids.clone();
-        let sched = sched.clone();
-        let returned = returned.clone();
-        let observed = observed.clone();
-        handles.push(std::thread::spawn(move || {
-            let s2 = sched.clone();
-            arroy::verif::set_hook(Some(Box::new(move |label, _| {
-                if label.starts_with("Atomic") {
-                    s2.yield_point(t, label, 0)
+/// A team of persistent threads that run the script "call next() `calls` times" on command.
+struct Team {
+    sched: Sched,
+    returned: Arc<Mutex<Vec<Vec<u32>>>>,
+    observed: Arc<Mutex<Vec<Vec<(&'static str, u64)>>>>,
+    jobs: Vec<std::sync::mpsc::Sender<Option<(Arc<arroy::verif::ConcurrentNodeIds>, usize)>>>,
+    handles: Vec<std::thread::JoinHandle<()>>,
+}
+
+impl Team {
+    fn new(threads: usize) -> Team {
+        let sched = Sched::new(threads);
+        let returned: Arc<Mutex<Vec<Vec<u32>>>> = Arc::new(Mutex::new(vec![Vec::new(); threads]));
+        // per thread: (label, value returned) of the atomic operations of the call in progress —
+        // everything the locals of next() can depend on
+        let observed: Arc<Mutex<Vec<Vec<(&'static str, u64)>>>> = Arc::new(Mutex::new(vec![Vec::new(); threads]));
+        let mut jobs = Vec::new();
+        let mut handles = Vec::new();
+        for t in 0..threads {
+            let (tx, rx) = std::sync::mpsc::channel::<Option<(Arc<arroy::verif::ConcurrentNodeIds>, usize)>>();
+            jobs.push(tx);
+            let sched = sched.clone();
+            let returned = returned.clone();
+            let observed = observed.clone();
+            handles.push(std::thread::spawn(move || {
+                let s2 = sched.clone();
+                // only the atomic operations are yield points here
+                arroy::verif::set_hook(Some(Box::new(move |label, _| {
+                    if label.starts_with("Atomic") {
+                        s2.yield_point(t, label, 0)
+                    }
+                })));
+                let o2 = observed.clone();
+                arroy::verif::set_observer(Some(Box::new(move |label, value| o2.lock().unwrap()[t].push((label, value)))));
+                while let Ok(Some((ids, calls))) = rx.recv() {
+                    sched.yield_point(t, "start", 0);
+                    for _ in 0..calls {
+                        observed.lock().unwrap()[t].clear();
+                        match ids.next() {
+                            Ok(id) => returned.lock().unwrap()[t].push(id),
+                            Err(_) => returned.lock().unwrap()[t].push(u32::MAX),
+                        }
+                        observed.lock().unwrap()[t].clear();
+                    }
+                    drop(ids);
+                    sched.finish(t);
                 }
-            })));
-            let o2 = observed.clone();
-            arroy::verif::set_observer(Some(Box::new(move |label, value| o2.lock().unwrap()[t].push((label, value)))));
-            sched.yield_point(t, "start", 0);
-            for _ in 0..calls {
-                observed.lock().unwrap()[t].clear();
-                match ids.next() {
-                    Ok(id) => returned.lock().unwrap()[t].push(id),
-                    Err(_) => returned.lock().unwrap()[t].push(u32::MAX),
-                }
-                observed.lock().unwrap()[t].clear();
-            }
-            arroy::verif::set_hook(None);
-            arroy::verif::set_observer(None);
-            sched.finish(t);
-        }));
+            }));
+        }
+        Team { sched, returned, observed, jobs, handles }
     }
+}
+
+impl Drop for Team {
+    fn drop(&mut self) {
+        self.sched.free_run();
+        for j in &self.jobs {
+            let _ = j.send(None);
+        }
+        for h in self.handles.drain(..) {
+            let _ = h.join();
+        }
+    }
+}
+
+fn run_l1(team: &Team, threads: usize, calls: usize, used: &RoaringBitmap, prefix: &[usize]) -> Result<L1Outcome, String> {
+    let ids = Arc::new(arroy::verif::ConcurrentNodeIds::new(used.clone()));
+    let sched = &team.sched;
+    sched.reset_all();
+    for r in team.returned.lock().unwrap().iter_mut() {
+        r.clear();
+    }
+    for o in team.observed.lock().unwrap().iter_mut() {
+        o.clear();
+    }
+    for j in &team.jobs {
+        j.send(Some((ids.clone(), calls))).map_err(|e| e.to_string())?;
+    }
+    let returned = &team.returned;
+    let observed = &team.observed;
     let mut points = Vec::new();
     let mut err = None;
     loop {
@@ -115,13 +159,8 @@ fn run_l1(threads: usize, calls: usize, used: &RoaringBitmap, prefix: &[usize]) 
         points.push(Point { state: Some(hash128(&[&sig])), enabled: enabled.len(), chosen });
         sched.release(t);
     }
-    if err.is_some() {
-        sched.free_run();
-    }
-    for h in handles {
-        let _ = h.join();
-    }
     if let Some(e) = err {
+        // the team is abandoned by its owner (Drop lets the threads run free)
         return Err(e);
     }
     let returned = returned.lock().unwrap().clone();
@@ -146,23 +185,31 @@ fn l1_oracle(used: &RoaringBitmap, returned: &[Vec<u32>]) -> Result<(), String> 
 fn level1(report: &mut Report, tier: Tier) {
     use rayon::prelude::*;
     let configs: Vec<(usize, usize)> = match tier {
-        Tier::Quick => vec![(2, 1), (2, 2), (2, 3), (3, 1)],
+        Tier::Quick => vec![(2, 1), (2, 2), (2, 3), (3, 1), (3, 2)],
         Tier::Thorough => vec![(2, 1), (2, 2), (2, 3), (3, 1), (3, 2), (4, 1), (3, 3)],
     };
-    let cap: u64 = if tier == Tier::Quick { 40_000 } else { 400_000 };
+    let cap: u64 = if tier == Tier::Quick { 60_000 } else { 600_000 };
     let mut total_exec = 0u64;
     let mut total_states = 0u64;
     let outcomes: Mutex<std::collections::BTreeSet<Vec<u32>>> = Mutex::new(Default::default());
     for (threads, calls) in configs {
         // the 32 used-sets are independent searches: run them side by side (the hooks are thread-local)
-        let results: Vec<(u32, Result<crate::sched::DfsStats, (String, Vec<usize>)>, Option<(String, Vec<usize>, Vec<Vec<u32>>)>)> = (0u32..32)
+        // quick tier: the 3x2 search runs on 8 of the 32 used-sets (none, some, gaps, full)
+        let masks: Vec<u32> = if tier == Tier::Quick && threads * calls >= 6 && threads >= 3 {
+            vec![0b00000, 0b00001, 0b00010, 0b00101, 0b01010, 0b10001, 0b10100, 0b11111]
+        } else {
+            (0u32..32).collect()
+        };
+        let n_masks = masks.len();
+        let results: Vec<(u32, Result<crate::sched::DfsStats, (String, Vec<usize>)>, Option<(String, Vec<usize>, Vec<Vec<u32>>)>)> = masks
             .into_par_iter()
             .map(|mask| {
                 let used: RoaringBitmap = (0..5u32).filter(|b| (mask >> b) & 1 == 1).collect();
                 let mut failure: Option<(String, Vec<usize>, Vec<Vec<u32>>)> = None;
+                let team = Team::new(threads);
                 let r = dfs(
                     |prefix| {
-                        let o = run_l1(threads, calls, &used, prefix)?;
+                        let o = run_l1(&team, threads, calls, &used, prefix)?;
                         let mut flat: Vec<u32> = o.returned.iter().flatten().copied().collect();
                         flat.sort();
                         outcomes.lock().unwrap().insert(flat);
@@ -203,7 +250,7 @@ fn level1(report: &mut Report, tier: Tier) {
         }
         eprintln!("[C13] L1 T={threads} K={calls}: executions={cfg_exec} states={cfg_states} elapsed={:.1}s", report.started.elapsed().as_secs_f64());
         let runs = report.coverage.entry("runs".to_string()).or_insert_with(|| json!([]));
-        runs.as_array_mut().unwrap().push(json!({"run": format!("L1 threads={threads} calls={calls} x 32 used-sets"), "executions": cfg_exec, "states": cfg_states}));
+        runs.as_array_mut().unwrap().push(json!({"run": format!("L1 threads={threads} calls={calls} x {n_masks} used-sets"), "executions": cfg_exec, "states": cfg_states}));
         total_exec += cfg_exec;
         total_states += cfg_states;
         if !report.violations.is_empty() {
@@ -242,9 +289,14 @@ enum ThreadState {
 
 type Shared = Arc<(Mutex<TaskState>, Condvar)>;
 
-fn task_yield(sh: &Shared, me: usize, label: &'static str, root: u64) {
+fn task_yield(sh: &Shared, me: usize, label: &'static str, root: u64, is_start: bool) {
     let (m, cv) = &**sh;
     let mut g = m.lock().unwrap();
+    if is_start {
+        // registered and blocked in one critical section: the controller never sees a
+        // started task that is not yet blocked
+        g.started += 1;
+    }
     if g.free_run {
         return;
     }
@@ -285,15 +337,11 @@ fn run_l2(scratch: &Scratch, start: &Kv, dim: usize, metric: Metric, opts: &Buil
                 }
                 "tree-task-start" => {
                     in_task.set(Some(value));
-                    {
-                        let (m, _) = &*sh;
-                        m.lock().unwrap().started += 1;
-                    }
-                    task_yield(&sh, me, "tree-task-start", value);
+                    task_yield(&sh, me, "tree-task-start", value, true);
                 }
                 "ConcurrentNodeIds::next" => {
                     if let Some(root) = in_task.get() {
-                        task_yield(&sh, me, "next", root);
+                        task_yield(&sh, me, "next", root, false);
                     }
                 }
                 "tree-task-end" => {
